@@ -456,7 +456,33 @@ def check(run: Run) -> None:
             n_viol += 1
             run.violation(f"outcome kind depends on the declaration order: {sorted(ks)}", {"kind": "sort-perm", "group": g})
         i += len(g)
-    run.coverage["input_distribution"] = {"graph_kinds": kinds, "impl_outcomes": outcomes}
+    # large graphs, implementation + oracle only (no size bound in the theorems; the Coq evaluation of the
+    # model is kept to <= 40 elements): reverse chains need n(n+1)/2 queue operations, so any absolute cap,
+    # any cap below n^2/2 and any per-size shortcut shows up here with a concrete graph
+    n_large = 0
+    for n in (50, 100, 200, 400) if thorough else (50, 100, 200):
+        names = [10 + i for i in range(n)]
+        chain = [(names[i], [names[i - 1]] if i > 0 else [0], [names[i]]) for i in range(n)]
+        shuffled = list(chain)
+        rng.shuffle(shuffled)
+        cyc = [(names[i], [names[i - 1]], [names[i]]) for i in range(n)]  # n-cycle
+        tail = list(reversed(chain[: n // 2])) + [(names[i], [names[i - 1] if i > n // 2 else names[n - 1]], [names[i]]) for i in range(n // 2, n)]
+        for kind, els in (("large-revchain", list(reversed(chain))), ("large-shuffled", shuffled), ("large-cycle", cyc), ("large-chain+cycle", tail)):
+            out = run_impl([0], els)
+            n_large += 1
+            kinds[kind] = kinds.get(kind, 0) + 1
+            outcomes[out[0]] = outcomes.get(out[0], 0) + 1
+            run.count_case(([0], els), nontrivial=True)
+            bad = oracle([0], els, out)
+            if bad and n_viol < 8:
+                n_viol += 1
+                run.violation(
+                    f"_sort_dependencies ({kind}, {n} elements): {bad}",
+                    {"kind": "sort", "available": [name_of(0)],
+                     "elements": [{"name": name_of(a), "required": [name_of(r) for r in req], "provided": [name_of(q) for q in prov]} for a, req, prov in els],
+                     "outcome": out, "raw": {"avail": [0], "els": els}},
+                )
+    run.coverage["input_distribution"] = {"graph_kinds": kinds, "impl_outcomes": outcomes, "large_graphs_oracle_only": n_large}
 
     # correspondence inside Coq
     files = {f"c02_{k:04d}": corr_file(chunk) for k, chunk in enumerate(common.chunks(coq_cases, 400))}
